@@ -64,9 +64,11 @@ def main(argv=None):
     prop = args.prop.upper()
     dshards, dscale, timeout = TIERS[args.tier]
     nshards = args.shards or int(os.environ.get("VERIF_SHARDS", dshards))
-    scale = args.scale if args.scale is not None else dscale
-
     mod = _load(prop)
+    # a check may cap the thorough scale (schedule exploration grows much faster than linearly)
+    if args.tier == "thorough":
+        dscale = getattr(mod, "THOROUGH_SCALE", dscale)
+    scale = args.scale if args.scale is not None else dscale
 
     if args.replay:
         with open(args.replay) as f:
